@@ -200,12 +200,16 @@ pub fn gen_scale(rng: &mut Rng, cfg: &ValueCfg, ndigits: usize, digit_class: usi
             }
         }
         _ => {
-            // the extremes of the allowed range
+            // the extremes of the allowed range, and the 32-bit boundaries inside it
             let d = rng.range(0, 3);
+            let anchors: [i64; 6] = [m, 1i64 << 31, 1i64 << 32, (1i64 << 31) + (1i64 << 30), 10_000_000_000, 3_000_000_000];
+            let a = *rng.pick(&anchors);
+            let a = if a > m { m } else { a };
+            let a = if a == m { a - d } else { a + rng.range(-2, 2) };
             if rng.chance(1, 2) {
-                m - d
+                a
             } else {
-                -m + d
+                -a
             }
         }
     };
